@@ -251,3 +251,20 @@ Lemma monitor_rejects_favicon_shortcut :
   holds w_cfg (RFavicon w_sess) (Authenticated w_sess) client
         (h_get k_xfu leaked) (h_get k_xfe leaked) (h_get k_xfg leaked) (h_get k_xfat leaked) (h_get k_cookie leaked) [] = false.
 Proof. vm_compute. reflexivity. Qed.
+
+(* clause F accepts the model: what the model re-saves is the presented or the freshly vouched session *)
+Lemma session_eqb_refl s : session_eqb s s = true.
+Proof. unfold session_eqb. rewrite !str_eqb_refl, strs_eqb_refl. reflexivity. Qed.
+
+Lemma saved_legit_model allowed d r m : saved_legit allowed d m (model_saved allowed d r m) = true.
+Proof.
+  destruct m as [s|]; [|destruct r; reflexivity]. unfold saved_legit, model_saved.
+  destruct d; cbn [resaved_session asserted_session fresh_session]; rewrite ?session_eqb_refl, ?orb_true_r; reflexivity.
+Qed.
+
+(* and it rejects an emptied session re-saved by a request that joined a coalesced refresh *)
+Lemma saved_legit_rejects_emptied :
+  let s := {| s_user := [98]; s_email := [98;64;99]; s_groups := [[116]; [101]]; s_token := [49] |} in
+  saved_legit [[101]; [111]; [116]] (JoinedRefresh [50] [[116]]) (Authenticated s)
+              (Some {| s_user := [98]; s_email := [98;64;99]; s_groups := []; s_token := [] |}) = false.
+Proof. reflexivity. Qed.
